@@ -157,6 +157,7 @@ type Interp struct {
 	hangIsViolation bool
 	failClass   string
 	confirmModel map[string]uint64
+	models      []*cachedModel
 	timerByCell map[*Cell]*Timer
 	crcPoly     map[*Cell]uint32
 }
